@@ -100,6 +100,10 @@ func c20Op(kind string, seed uint64) string {
 				// a directory that does not exist (yet): whatever Write makes of that, it makes it alone or together
 				path = filepath.Join(c20Dir, "sub-"+c20Phase, fmt.Sprintf("list-%d.%s", seed, ext))
 			}
+			if seed%4 == 0 {
+				// (a file of the shared directory itself, never of the sub-directory that may not exist)
+				os.WriteFile(path, []byte("an earlier version of the file, to be replaced"), 0o644)
+			}
 			if err := s.Write(path); err != nil {
 				out = "write err:" + strings.ReplaceAll(strings.ReplaceAll(err.Error(), c20Dir, ""), "sub-"+c20Phase, "sub")
 				return
